@@ -220,6 +220,11 @@ static std::vector<Config> configs() {
   c.push_back({"identity_affine", true, 1, [](int d) { return FK(d, Eigen::MatrixXd::Identity(d, d), Eigen::VectorXd::Zero(d)); }});
   c.push_back({"diag_offset", true, 1, [](int d) { return FK(d, diag_matrix(d), offset_vec(d)); }});
   c.push_back({"monomial_changed_scale4", true, 4, [](int d) { FK t(d); t.change_matrix(mono_matrix(d)); t.change_offset(offset_vec(d)); return t; }});
+  // every order of the two setters on every constructor form (the setters may cache what kind of triangulation it is)
+  c.push_back({"offset_only_on_fk", true, 1, [](int d) { FK t(d); t.change_offset(offset_vec(d)); return t; }});
+  c.push_back({"offset_then_matrix_on_fk", true, 2, [](int d) { FK t(d); t.change_offset(offset_vec(d)); t.change_matrix(mono_matrix(d)); return t; }});
+  c.push_back({"affine_then_offset", true, 1, [](int d) { FK t(d, diag_matrix(d), Eigen::VectorXd::Zero(d)); t.change_offset(offset_vec(d)); return t; }});
+  c.push_back({"identity_matrix_set_on_fk", true, 1, [](int d) { FK t(d); t.change_matrix(Eigen::MatrixXd::Identity(d, d)); return t; }});
   c.push_back({"coxeter", false, 1, [](int d) { return FK(Cox(d)); }});
   c.push_back({"coxeter_offset_scale2", false, 2, [](int d) { Cox t(d); t.change_offset(offset_vec(d)); return FK(t); }});
   c.push_back({"shear_offset", false, 1, [](int d) { return FK(d, shear_matrix(d), offset_vec(d)); }});
